@@ -13,7 +13,7 @@ Definition x_fs : list ifile :=
 Definition x_used : list id := map (used_key Data) [1; 3; 5; 7].
 Definition x_existing : list (id * N) := [(101, 50); (102, 50); (103, 50); (104, 50)].
 Definition x_opts (mu mr : limit) (all nores : bool) (keep_pack : Z) (sz : sizer) : popts :=
-  mkOpts 1000%Z keep_pack 0%Z false false all nores false mu mr sz sz.
+  mkOpts 1000%Z keep_pack 0%Z false false all nores false mu mr sz sz 1000%Z.
 Definition x_todos (o : popts) := todos_of (prune_with decide_repack packer1 800 o x_fs x_used x_existing).
 
 (* max_repack = 25 bytes: two packs (10 + 10 used bytes) fit, the third would reach the limit *)
